@@ -317,6 +317,7 @@ func famSnapCfgRace(t *testing.T, seed int64, steps int) *Cluster {
 func famRestoreInflight(t *testing.T, seed int64, steps int) *Cluster {
 	opt := DefaultOptions(seed)
 	opt.Family = "restoreinflight"
+	opt.BatchFSM = seed%3 == 2
 	opt.Mono = seed%2 == 1
 	opt.MaxAppend = 1 + int(seed%3)
 	opt.Trailing = uint64(seed % 3)
@@ -1197,5 +1198,237 @@ func famXferIsolated(t *testing.T, seed int64, steps int) *Cluster {
 	c.healAll()
 	c.Drive(300*time.Millisecond, nil, nil)
 	c.converge(500 * time.Millisecond)
+	return c
+}
+
+// famStalledLeader: the leader's main goroutine is stuck in a slow log-store write while it is cut off; the others
+// elect a new leader; then only the direction old leader -> others works again, so that its replication routines
+// are answered with the newer term before the main goroutine gets to step down. Nobody may be in leader state,
+// accept writes or send as leader in a term it did not win (C01).
+func famStalledLeader(t *testing.T, seed int64, steps int) *Cluster {
+	opt := DefaultOptions(seed)
+	opt.Family = "stalledleader"
+	c := NewCluster(t, opt)
+	c.Bootstrap()
+	c.StartAll()
+	L := c.WaitLeader(2 * time.Second)
+	if L == "" {
+		return c
+	}
+	c.Apply(L, 0)
+	c.Settle("client")
+	c.Drive(100*time.Millisecond, nil, nil)
+	if c.Leader() != L {
+		c.converge(500 * time.Millisecond)
+		return c
+	}
+	ln := c.byID[L]
+	// the next store write of L parks its main goroutine
+	ln.inc.mu.Lock()
+	ln.inc.parkAt = 1
+	ln.inc.mu.Unlock()
+	c.Apply(L, 0)
+	c.Settle("client")
+	c.Drive(20*time.Millisecond, nil, func() bool { return ln.inc.Parked() })
+	c.isolate(L)
+	c.dropPendingFrom(L)
+	ok := c.Drive(3*time.Second, nil, func() bool { x := c.Leader(); return x != "" && x != L })
+	if ok {
+		if x := c.Leader(); x != "" && x != L {
+			c.Apply(x, 0)
+			c.Settle("client")
+			c.Drive(60*time.Millisecond, nil, nil)
+		}
+		// L can reach the others again (its requests and their answers travel), nothing initiated by the others reaches L
+		c.healAll()
+		c.Drive(400*time.Millisecond, func(r *Rpc) bool { return r.Src == L }, nil)
+		// more client calls arrive at L meanwhile
+		for i := 0; i < 2; i++ {
+			c.Apply(L, 0)
+			c.Settle("client")
+		}
+		c.Drive(100*time.Millisecond, func(r *Rpc) bool { return r.Src == L }, nil)
+	}
+	if ln.inc.Parked() {
+		ln.inc.Unpark()
+		c.Settle("diskdone")
+	}
+	c.Drive(200*time.Millisecond, func(r *Rpc) bool { return r.Src == L }, nil)
+	c.healAll()
+	c.converge(500 * time.Millisecond)
+	return c
+}
+
+// famRestoreBacklog: a restore request (user Restore on the leader; InstallSnapshot on a follower whose FSM is busy)
+// arrives behind a backlog of committed batches in the FSM's queue: the FSM must be handed the backlog first and the
+// snapshot afterwards (C02: increasing order, nothing repeated; a restore leaves exactly the snapshot's state).
+func famRestoreBacklog(t *testing.T, seed int64, steps int) *Cluster {
+	opt := DefaultOptions(seed)
+	opt.Family = "restorebacklog"
+	opt.BatchFSM = seed%2 == 0
+	opt.MaxAppend = 1 + int(seed%3)
+	opt.Trailing = 0
+	c := NewCluster(t, opt)
+	c.Bootstrap()
+	c.StartAll()
+	L := c.WaitLeader(2 * time.Second)
+	if L == "" {
+		return c
+	}
+	c.Apply(L, 0)
+	c.Settle("client")
+	c.Drive(100*time.Millisecond, nil, nil)
+	if c.Leader() != L {
+		c.converge(500 * time.Millisecond)
+		return c
+	}
+	var others []string
+	for _, id := range opt.Servers {
+		if id != L {
+			others = append(others, id)
+		}
+	}
+	if seed%4 < 2 {
+		// user Restore on the leader behind a backlog in the leader's FSM queue
+		ln := c.byID[L]
+		ln.FSM.SetGated(true)
+		for i := 0; i < 3+int(seed%3); i++ {
+			c.Apply(L, 0)
+			c.Settle("client")
+			c.Drive(25*time.Millisecond, nil, nil)
+		}
+		li := ln.Raft.LastIndex()
+		c.UserRestore(L, []string{fmt.Sprintf("u%d.1", seed), fmt.Sprintf("u%d.2", seed)}, li+2, 1, 0)
+		c.Settle("client")
+		c.Drive(60*time.Millisecond, nil, nil)
+		for i := 0; i < 10; i++ {
+			ln.FSM.Release(1)
+			c.Settle("fsm")
+			c.Drive(15*time.Millisecond, nil, nil)
+		}
+		ln.FSM.SetGated(false)
+		c.Settle("fsm")
+	} else {
+		// InstallSnapshot on a follower behind a backlog in that follower's FSM queue
+		F := others[int(seed/4)%len(others)]
+		fn := c.byID[F]
+		fn.FSM.SetGated(true)
+		for i := 0; i < 3; i++ {
+			c.Apply(L, 0)
+			c.Settle("client")
+			c.Drive(25*time.Millisecond, nil, nil)
+		}
+		// F is cut off; the others move on, snapshot and compact; F comes back and needs the snapshot
+		c.isolate(F)
+		for i := 0; i < 4; i++ {
+			c.Apply(L, 0)
+			c.Settle("client")
+			c.Drive(20*time.Millisecond, nil, nil)
+		}
+		for _, id := range opt.Servers {
+			if id != F {
+				c.UserSnapshot(id)
+				c.Settle("client")
+			}
+		}
+		c.Drive(150*time.Millisecond, nil, nil)
+		c.healAll()
+		c.Drive(300*time.Millisecond, nil, nil)
+		for i := 0; i < 10; i++ {
+			fn.FSM.Release(1)
+			c.Settle("fsm")
+			c.Drive(15*time.Millisecond, nil, nil)
+		}
+		fn.FSM.SetGated(false)
+		c.Settle("fsm")
+	}
+	c.Drive(300*time.Millisecond, nil, nil)
+	c.converge(600 * time.Millisecond)
+	return c
+}
+
+
+// famCTCrash: RestoreCommittedLogs on a commit-tracking store that persists a staged commit index at once. A follower
+// holds a never-committed suffix of a deposed leader; the new leader's first conflicting AppendEntries arrives with
+// a commit index covering those indexes, and the follower crashes between two store operations of that handler.
+// After the restart only committed entries may be replayed into the FSM (C10, C02).
+func famCTCrash(t *testing.T, seed int64, steps int) *Cluster {
+	opt := DefaultOptions(seed)
+	opt.Family = "ctcrash"
+	opt.Servers = []string{"n1", "n2", "n3", "n4", "n5"}
+	opt.Initial = map[string]string{"n1": "V", "n2": "V", "n3": "V", "n4": "V", "n5": "V"}
+	opt.CommitTrack = true
+	opt.CTEager = seed%4 != 3
+	opt.MaxAppend = 2 + int(seed%3)
+	c := NewCluster(t, opt)
+	c.Bootstrap()
+	c.StartAll()
+	A := c.WaitLeader(2 * time.Second)
+	if A == "" {
+		return c
+	}
+	var others []string
+	for _, id := range opt.Servers {
+		if id != A {
+			others = append(others, id)
+		}
+	}
+	F := others[int(seed)%len(others)]
+	c.Apply(A, 0)
+	c.Settle("client")
+	c.Drive(120*time.Millisecond, nil, nil)
+	if c.Leader() != A {
+		c.converge(500 * time.Millisecond)
+		return c
+	}
+	base := c.byID[A].Raft.LastIndex()
+	// A's next entries reach F only (2 of 5 voters: never committed)
+	for _, x := range others {
+		if x != F {
+			c.Net.SetBlocked(A, x, true)
+			c.Net.SetBlocked(F, x, true)
+		}
+	}
+	c.Tr.Emit("part", "", M{"op": "split", "blocked": c.blockedJSON()})
+	for i := 0; i < 2+int(seed%2); i++ {
+		c.Apply(A, 0)
+		c.Settle("client")
+	}
+	c.Drive(40*time.Millisecond, func(r *Rpc) bool { return r.Src == A }, func() bool { return c.byID[F].Raft.LastIndex() >= base+2 })
+	c.Crash(A)
+	c.Settle("crash")
+	c.dropPendingFrom(A)
+	c.isolate(F)
+	c.dropPendingFrom(F)
+	// the other three elect a leader and commit at the same indexes
+	ok := c.Drive(4*time.Second, nil, func() bool { x := c.Leader(); return x != "" && x != A && x != F })
+	if !ok {
+		c.healAll()
+		c.converge(500 * time.Millisecond)
+		return c
+	}
+	N := c.Leader()
+	for i := 0; i < 3; i++ {
+		c.Apply(N, 0)
+		c.Settle("client")
+		c.Drive(30*time.Millisecond, nil, nil)
+	}
+	// F is back; it crashes before the k-th store write of whatever it handles next
+	fn := c.byID[F]
+	fn.inc.mu.Lock()
+	fn.inc.crashAt = 1 + int(seed/4)%3
+	fn.inc.mu.Unlock()
+	c.healAll()
+	c.Drive(400*time.Millisecond, nil, func() bool { return !fn.Up || fn.inc.crashedAtGate })
+	if fn.inc.crashedAtGate && fn.Up {
+		c.Crash(F)
+		c.Settle("crash")
+	}
+	if !fn.Up {
+		c.Start(F)
+		c.Settle("restart")
+	}
+	c.Drive(300*time.Millisecond, nil, nil)
+	c.converge(600 * time.Millisecond)
 	return c
 }
